@@ -36,6 +36,7 @@ HARNESS_PKGS = {
     "hr": "internal/resources/hashrate",
     "contractmanager": "internal/contractmanager",
     "tcphandlers": "internal/handlers/tcphandlers",
+    "httphandlers": "internal/handlers/httphandlers",
 }
 
 
